@@ -346,6 +346,23 @@ func registerTimeRand(p *Program) {
 		return in.durationBetween(in.unixOfTime(a[0]), in.nsOfTime(a[0]), in.unixOfTime(a[1]), in.nsOfTime(a[1]))
 	}
 	I["time.Time.Sub"] = I["(time.Time).Sub"]
+	// Time.Add of a constant whole number of seconds on a modelled clock reading (deadlines):
+	// seconds move, the sub-second part stays
+	I["(time.Time).Add"] = func(in *Interp, fr *frame, a []Value) Value {
+		d, ok := a[1].(*Term)
+		if !ok || !d.IsConst() || int64(d.Val)%1000000000 != 0 {
+			panic(engineErr("Time.Add of a duration that is not a constant number of whole seconds"))
+		}
+		t := a[0].(StructV)
+		wall := t[0].(*Term)
+		if wall.IsConst() && wall.Val>>63 != 0 {
+			panic(engineErr("time value with monotonic reading in Add"))
+		}
+		out := append(StructV(nil), t...)
+		out[1] = in.ts.Add(t[1].(*Term), in.ts.Const(64, uint64(int64(d.Val)/1000000000)))
+		return out
+	}
+	I["time.Time.Add"] = I["(time.Time).Add"]
 	I["time.Sleep"] = func(in *Interp, fr *frame, a []Value) Value {
 		// advances the clock by at least the duration (seconds granularity)
 		d := a[0].(*Term)
